@@ -397,6 +397,11 @@ class Model(object):
     def own_method(self, cls_qname, name):
         c = self.cls(cls_qname)
         if name not in c.methods:
+            # pulled up into a base class / mixin (merged duplicates): the definition the class inherits, analysed as a method
+            # of this class
+            lk = c.lookup(name)
+            if lk is not None and lk[0].qname != "common.MetadataBase" and name not in lk[0].properties:
+                return FuncRef(lk[0].module, c, lk[1])
             raise AnalysisError("anchor vanished: method %s.%s not found" % (cls_qname, name))
         return FuncRef(c.module, c, c.methods[name])
 
